@@ -46,9 +46,9 @@ theorem C04_once_with_span (cx : Ctx) (n i : Nat) (nd : Node) (a : AMode) (m : R
     (hact : hasAction a (cx.actOf env i nd) = true) :
     ∃ r0 : Ret, r0.res = .ok ∧
       r.raw = Ev.enter i a m (cx.rep st.cur) :: Ev.start i (cx.rep st.cur) :: r0.raw ++
-        [actEvent cx i (cx.actOf env i nd) st.cur r0.st.cur, Ev.success i (cx.rep r0.st.cur)] ++
+        [actEvent cx i (cx.actOf env i nd) env.sd st.cur r0.st.cur, Ev.success i (cx.rep r0.st.cur)] ++
         [Ev.exit i 1 (cx.rep r.st.cur)] ∧
-      r.surv = r0.surv ++ [actEvent cx i (cx.actOf env i nd) st.cur r0.st.cur] ∧
+      r.surv = r0.surv ++ [actEvent cx i (cx.actOf env i nd) env.sd st.cur r0.st.cur] ∧
       r.st.cur = r0.st.cur := by
   simp only [run, nodeCall, hn, hw, nodeCore, hc, Bool.not_true, Bool.false_eq_true, if_false,
     Option.map_eq_some_iff] at h
@@ -76,7 +76,7 @@ theorem C04_once_with_span (cx : Ctx) (n i : Nat) (nd : Node) (a : AMode) (m : R
       · simp [bracket, guardRestore, Ret.dropOnFail, hr]
 
 /-- No action event inside sections with actions disabled. -/
-def NoActs (l : List Ev) : Prop := ∀ e ∈ l, (∀ i b c, e ≠ Ev.apply i b c) ∧ (∀ i c, e ≠ Ev.apply0 i c)
+def NoActs (l : List Ev) : Prop := ∀ e ∈ l, (∀ i sd b c, e ≠ Ev.apply i sd b c) ∧ (∀ i sd c, e ≠ Ev.apply0 i sd c)
 
 theorem NoActs_closed : RawClosed NoActs where
   nil := by intro e he; simp at he
@@ -89,6 +89,29 @@ theorem NoActs_closed : RawClosed NoActs where
   raise := by
     intro i c e he
     simp only [List.mem_singleton] at he; subst he; simp
+  sctor := by
+    intro d e he
+    simp only [List.mem_singleton] at he; subst he; simp
+  ssucc := by
+    intro d c o e he
+    simp only [List.mem_singleton] at he; subst he; simp
+  sdtor := by
+    intro d e he
+    simp only [List.mem_singleton] at he; subst he; simp
+
+theorem NoActs.scope {l : List Ev} (h : NoActs l) (cx : Ctx) (o : Nat) (b : Bool) (r : Ret) (hl : r.raw = l) :
+    NoActs (stateScope cx o b r).raw := by
+  subst hl
+  intro e he
+  unfold stateScope at he
+  simp only [List.cons_append, List.mem_cons, List.mem_append, List.append_assoc, List.not_mem_nil, or_false] at he
+  rcases he with he | he | he | he
+  · subst he; simp
+  · exact h e he
+  · split at he
+    · simp only [List.mem_singleton] at he; subst he; simp
+    · simp at he
+  · subst he; simp
 
 /-- The table never switches actions back on. -/
 def NoEnable (cx : Ctx) : Prop :=
@@ -109,14 +132,14 @@ theorem C04_disabled (cx : Ctx) (hne : NoEnable cx) : ∀ (n i : Nat) (m : RMode
     · rename_i nd hn
       simp only [Option.map_eq_some_iff] at h
       obtain ⟨r0, h0, rfl⟩ := h
-      have hcore : ∀ st' r1, nodeCore cx (fun i a m env st => run cx n i a m env st) n i nd .nothing m env st' = some r1 →
+      have hcore : ∀ ee st' r1, nodeCore cx (fun i a m env st => run cx n i a m env st) n i nd .nothing m ee st' = some r1 →
           NoActs r1.raw := by
-        intro st' r1 h1
+        intro ee st' r1 h1
         unfold nodeCore at h1
-        have hb : ∀ mm r2, body cx (fun i a m env st => run cx n i a m env st) n nd.kind .nothing mm env st' = some r2 →
+        have hb : ∀ mm r2, body cx (fun i a m env st => run cx n i a m env st) n nd.kind .nothing mm ee st' = some r2 →
             NoActs r2.raw := fun mm r2 h2 =>
           body_rawA NoActs_closed cx n nd.kind .nothing hrec hrec
-            (fun ⟨c, hk⟩ => absurd hk (hne.1 i nd c hn)) mm env st' r2 h2
+            (fun ⟨c, hk⟩ => absurd hk (hne.1 i nd c hn)) mm ee st' r2 h2
         split at h1
         · exact hb _ _ h1
         · simp only [Option.map_eq_some_iff] at h1
@@ -139,7 +162,7 @@ theorem C04_disabled (cx : Ctx) (hne : NoEnable cx) : ∀ (n i : Nat) (m : RMode
               rcases he with he | he
               · exact q2 e he
               · subst he; simp
-            · have hno : actionOutcome cx i .nothing (cx.actOf env i nd) st'.cur r2.st.cur = .noAction := by
+            · have hno : actionOutcome cx i .nothing (cx.actOf ee i nd) st'.cur r2.st.cur = .noAction := by
                 simp [actionOutcome, hasAction]
               simp only [hno, List.mem_append, List.mem_singleton] at he
               rcases he with he | he
@@ -147,9 +170,9 @@ theorem C04_disabled (cx : Ctx) (hne : NoEnable cx) : ∀ (n i : Nat) (m : RMode
               · subst he; simp
       have hinner : NoActs r0.raw := by
         split at h0
-        · exact hcore _ _ h0
+        · exact hcore _ _ _ h0
         · exact ih _ _ _ _ _ h0
-        · exact hcore _ _ h0
+        · exact hcore _ _ _ h0
         · rename_i hw; exact absurd hw (hne.2 env i nd hn)
         · unfold limitDepthCall at h0
           split at h0
@@ -157,11 +180,11 @@ theorem C04_disabled (cx : Ctx) (hne : NoEnable cx) : ∀ (n i : Nat) (m : RMode
             intro e he; simp only [List.mem_singleton] at he; subst he; simp
           · simp only [Option.map_eq_some_iff] at h0
             obtain ⟨r1, h1, rfl⟩ := h0
-            exact hcore _ r1 h1
+            exact hcore _ _ r1 h1
         · unfold limitBytesCall at h0
           simp only [Option.map_eq_some_iff] at h0
           obtain ⟨r1, h1, rfl⟩ := h0
-          have q := hcore _ r1 h1
+          have q := hcore _ _ r1 h1
           split
           · intro e he
             simp only [List.mem_append, List.mem_singleton] at he
@@ -169,6 +192,12 @@ theorem C04_disabled (cx : Ctx) (hne : NoEnable cx) : ∀ (n i : Nat) (m : RMode
             · exact q e he
             · subst he; simp
           · exact q
+        · simp only [Option.map_eq_some_iff] at h0
+          obtain ⟨r1, h1, rfl⟩ := h0
+          exact (hcore _ _ r1 h1).scope cx _ _ r1 rfl
+        · simp only [Option.map_eq_some_iff] at h0
+          obtain ⟨r1, h1, rfl⟩ := h0
+          exact (ih _ _ _ _ _ h1).scope cx _ _ r1 rfl
       intro e he
       simp only [bracket, dropOnFail_raw, List.mem_cons, List.mem_append, List.mem_singleton] at he
       rcases he with (he | he) | he
@@ -220,12 +249,12 @@ def exG : Grammar := #[
 
 /-- "aab": inside `at` nothing fires; then A(0,1), A(1,2), B(2,3), S(0,3) survive in completion order. -/
 example : ∃ r, parseTop { g := exG, inp := #[97, 97, 98] } 12 5 .action .required = some r ∧ r.res = .ok ∧
-    r.surv = [.apply 1 ⟨0, 1, 1⟩ ⟨1, 1, 2⟩, .apply 1 ⟨1, 1, 2⟩ ⟨2, 1, 3⟩, .apply0 4 ⟨3, 1, 4⟩, .apply 0 ⟨0, 1, 1⟩ ⟨3, 1, 4⟩] ∧
+    r.surv = [.apply 1 0 ⟨0, 1, 1⟩ ⟨1, 1, 2⟩, .apply 1 0 ⟨1, 1, 2⟩ ⟨2, 1, 3⟩, .apply0 4 0 ⟨3, 1, 4⟩, .apply 0 0 ⟨0, 1, 1⟩ ⟨3, 1, 4⟩] ∧
     survOf r.raw = r.surv := by decide +kernel
 
 /-- "aac": the second `A` matched and its action fired, but `seq< A, B >` failed: only A(0,1) and S(0,1) survive. -/
 example : ∃ r, parseTop { g := exG, inp := #[97, 97, 99] } 12 0 .action .required = some r ∧ r.res = .ok ∧
-    r.surv = [.apply 1 ⟨0, 1, 1⟩ ⟨1, 1, 2⟩, .apply 0 ⟨0, 1, 1⟩ ⟨1, 1, 2⟩] ∧
-    (r.raw.filter fun e => match e with | .apply _ _ _ => true | _ => false).length = 3 := by decide +kernel
+    r.surv = [.apply 1 0 ⟨0, 1, 1⟩ ⟨1, 1, 2⟩, .apply 0 0 ⟨0, 1, 1⟩ ⟨1, 1, 2⟩] ∧
+    (r.raw.filter fun e => match e with | .apply _ _ _ _ => true | _ => false).length = 3 := by decide +kernel
 
 end Pegtl.C04
